@@ -59,11 +59,16 @@ func c20CheckType(c c20Type) engine.Result {
 		}
 		// through a decoded PMT: the stream in question at every position among 3 streams, on ordinary PIDs
 		// and on the highest PIDs (0x1FFD..0x1FFF: with the reserved bits the PID bytes read FF FD .. FF FF)
-		for pos6 := 0; pos6 < 6; pos6++ {
-			pos, base := pos6%3, 0x100
-			if pos6 >= 3 {
+		// ... and with the three PIDs in each of the 6 orders (ascending, descending, mixed)
+		perms := [6][3]int{{0, 1, 2}, {2, 1, 0}, {1, 0, 2}, {0, 2, 1}, {2, 0, 1}, {1, 2, 0}}
+		for pos6 := 0; pos6 < 3*7; pos6++ {
+			pos, base, perm := pos6%3, 0x100, perms[0]
+			if pos6 >= 18 {
 				base = 0x1FFD
+			} else {
+				perm = perms[pos6/3]
 			}
+			pidAt := func(i int) int { return base + perm[i] }
 			sec := ref.PMTSection{Program: 1, Version: 1, CurrentNext: true, PCRPID: 0x100}
 			others := []byte{0x02, 0x0F, 0x1B}
 			for i := 0; i < 3; i++ {
@@ -71,7 +76,7 @@ func c20CheckType(c c20Type) engine.Result {
 				if i == pos {
 					t = code
 				}
-				sec.Streams = append(sec.Streams, ref.Stream{Type: t, PID: base + i})
+				sec.Streams = append(sec.Streams, ref.Stream{Type: t, PID: pidAt(i)})
 			}
 			payload := append(ref.Pointer(0), sec.Bytes()...)
 			pmt, err := psi.NewPMT(payload)
@@ -87,8 +92,8 @@ func c20CheckType(c c20Type) engine.Result {
 			c20CheckPredicates(&res, "NewPMT", code, ess[pos])
 			for i := 0; i < 3; i++ {
 				want := c20Lags[sec.Streams[i].Type]
-				if got := pmt.IsPidForStreamWherePresentationLagsEbp(base + i); got != want {
-					res.Failf("PMT|IsPidForStreamWherePresentationLagsEbp", "type %#x pid %#x: got %v want %v", sec.Streams[i].Type, base+i, got, want)
+				if got := pmt.IsPidForStreamWherePresentationLagsEbp(pidAt(i)); got != want {
+					res.Failf("PMT|IsPidForStreamWherePresentationLagsEbp", "type %#x pid %#x: got %v want %v", sec.Streams[i].Type, pidAt(i), got, want)
 				}
 			}
 			if pmt.IsPidForStreamWherePresentationLagsEbp(0x99) {
@@ -101,33 +106,33 @@ func c20CheckType(c c20Type) engine.Result {
 					break
 				}
 				for i := 0; i < 3; i++ {
-					pm2.IsPidForStreamWherePresentationLagsEbp(base + i)
+					pm2.IsPidForStreamWherePresentationLagsEbp(pidAt(i))
 				}
-				pm2.RemoveElementaryStreams([]int{base + rm})
+				pm2.RemoveElementaryStreams([]int{pidAt(rm)})
 				for i := 0; i < 3; i++ {
 					want := i != rm && c20Lags[sec.Streams[i].Type]
-					if got := pm2.IsPidForStreamWherePresentationLagsEbp(base + i); got != want {
+					if got := pm2.IsPidForStreamWherePresentationLagsEbp(pidAt(i)); got != want {
 						res.Failf("PMT|IsPidForStreamWherePresentationLagsEbp-after-removal", "types %#x,%#x,%#x, stream %d removed after a first round of queries: pid %#x reports %v want %v",
-							sec.Streams[0].Type, sec.Streams[1].Type, sec.Streams[2].Type, rm, base+i, got, want)
+							sec.Streams[0].Type, sec.Streams[1].Type, sec.Streams[2].Type, rm, pidAt(i), got, want)
 					}
 				}
 			}
 			// one PID list object used for removals on two decoded tables in a row (the list is the caller's)
 			{
-				list := []int{base, base + 1}
+				list := []int{pidAt(0), pidAt(1)}
 				pa, errA := psi.NewPMT(payload)
 				pb, errB := psi.NewPMT(payload)
 				if errA == nil && errB == nil {
 					pa.RemoveElementaryStreams(list)
 					pb.RemoveElementaryStreams(list)
-					if list[0] != base || list[1] != base+1 {
+					if list[0] != pidAt(0) || list[1] != pidAt(1) {
 						res.Failf("PMT|RemoveElementaryStreams|argument-modified", "the PID list handed to RemoveElementaryStreams was changed to %v", list)
 					}
 					for i := 0; i < 3; i++ {
 						want := i == 2 && c20Lags[sec.Streams[2].Type]
-						if got := pb.IsPidForStreamWherePresentationLagsEbp(base + i); got != want {
+						if got := pb.IsPidForStreamWherePresentationLagsEbp(pidAt(i)); got != want {
 							res.Failf("PMT|IsPidForStreamWherePresentationLagsEbp-after-removal-with-a-reused-list", "types %#x,%#x,%#x, the first two removed from two tables with one list object: second table reports %v for pid %#x, want %v",
-								sec.Streams[0].Type, sec.Streams[1].Type, sec.Streams[2].Type, got, base+i, want)
+								sec.Streams[0].Type, sec.Streams[1].Type, sec.Streams[2].Type, got, pidAt(i), want)
 						}
 					}
 				}
@@ -573,7 +578,7 @@ func init() {
 		Scenarios: []engine.ScenarioRunner{
 			&engine.Enum[c20Type]{
 				Name: "stream-types",
-				Rule: "all 256 stream_type codes through LookupPmtStreamType, NewPmtElementaryStream and a decoded 3-stream PMT (code at each position, on ordinary PIDs and on PIDs 0x1FFC..0x1FFE; the PMT-level query also after query/remove/query histories on one object, after removals from two tables with one shared PID list, behind a stream carrying 300 bytes of descriptors, and for a table that follows another program map section in the same payload), and each code next to a descriptor of every one of the 256 tags (constructed and decoded); every code is a distinct non-trivial case",
+				Rule: "all 256 stream_type codes through LookupPmtStreamType, NewPmtElementaryStream and a decoded 3-stream PMT (code at each position, the three PIDs in each of the 6 orders, on ordinary PIDs and on PIDs 0x1FFD..0x1FFF; the PMT-level query also after query/remove/query histories on one object, after removals from two tables with one shared PID list, behind a stream carrying 300 bytes of descriptors, and for a table that follows another program map section in the same payload), and each code next to a descriptor of every one of the 256 tags (constructed and decoded); every code is a distinct non-trivial case",
 				Gen: func(r *engine.Run, emit func(c20Type)) {
 					for c := 0; c < 256; c++ {
 						emit(c20Type{c})
